@@ -238,6 +238,19 @@ static void sc_mt(int variant) {	// threaded coders under the default schedule o
 		if (chk(pump(&s, plain, 300, 0, LZMA_FINISH), LZMA_STREAM_END, LZMA_STREAM_END, "lzma_code(mt encoder after re-init)")) goto out;
 		{ size_t n = s.total_out; static unsigned char keep[8192], back[512]; memcpy(keep, obuf, n); uint64_t ml = UINT64_MAX; size_t ip = 0, op = 0;
 		  if (lzma_stream_buffer_decode(&ml, 0, NULL, keep, &ip, n, back, &op, sizeof back) != LZMA_OK || op != 300 || memcmp(back, plain, 300)) MISBEHAVE("mt encoder output after re-init does not decode"); } }
+	else if (variant == 6 || variant == 7) {	// threaded encoder: filters_update before any data (6) / after FULL_FLUSH (7); a refused update leaves the encoder usable with the old chain
+		lzma_mt mt = { .threads = 2, .block_size = 100, .filters = ch_lzma2, .check = LZMA_CHECK_CRC32 };
+		if (chk(lzma_stream_encoder_mt(&s, &mt), LZMA_OK, LZMA_OK, "lzma_stream_encoder_mt")) goto out;
+		size_t already = variant == 7 ? 150 : 0; s.next_in = plain; s.avail_in = already; s.next_out = obuf; s.avail_out = sizeof obuf;
+		if (already && chk(lzma_code(&s, LZMA_FULL_FLUSH), LZMA_STREAM_END, LZMA_STREAM_END, "lzma_code(mt encoder, FULL_FLUSH)")) goto out;
+		lzma_filter up2[3] = { { LZMA_FILTER_DELTA, &o_delta }, { LZMA_FILTER_LZMA2, &o_big }, { LZMA_VLI_UNKNOWN, NULL } };
+		lzma_ret u = lzma_filters_update(&s, up2);
+		if (u != LZMA_OK && !(u == LZMA_MEM_ERROR && fa_failed)) MISBEHAVE("lzma_filters_update(mt encoder) returned %d", u); else if (u != LZMA_OK && sc_status == 0) sc_status = 1;
+		s.next_in = plain + already; s.avail_in = 300 - already; lzma_ret c; while ((c = lzma_code(&s, LZMA_FINISH)) == LZMA_OK) {}
+		if (c == LZMA_MEM_ERROR && fa_failed) { if (sc_status == 0) sc_status = 1; goto out; }
+		if (c != LZMA_STREAM_END) { MISBEHAVE("mt encoder unusable after a %s filters_update (ret %d)", u == LZMA_OK ? "successful" : "refused", c); goto out; }
+		{ size_t n = s.total_out; static unsigned char keep[8192], back[512]; memcpy(keep, obuf, n); uint64_t ml = UINT64_MAX; size_t ip = 0, op = 0;
+		  if (lzma_stream_buffer_decode(&ml, 0, NULL, keep, &ip, n, back, &op, sizeof back) != LZMA_OK || op != 300 || memcmp(back, plain, 300)) MISBEHAVE("mt encoder output around a filters_update does not decode"); } }
 	else {	// threaded decoder, then re-initialised with another thread count (4: after the end, 5: mid-file)
 		lzma_mt mt = { .threads = 2, .memlimit_threading = UINT64_MAX, .memlimit_stop = UINT64_MAX };
 		if (chk(lzma_stream_decoder_mt(&s, &mt), LZMA_OK, LZMA_OK, "lzma_stream_decoder_mt")) goto out;
@@ -259,7 +272,7 @@ static void build_table(int thorough) {
 	char nm[96];
 #ifdef C10_SCHED
 	add("mt-encoder(2 threads,3 blocks)", 10, 0, 0, 0, 0); add("mt-decoder(2 threads,3 blocks)", 10, 1, 0, 0, 0);
-	add("mt-encoder finished, re-init(3 threads, other block size)", 10, 2, 0, 0, 0); add("mt-encoder mid-Block, re-init(3 threads, other block size)", 10, 3, 0, 0, 0); add("mt-decoder finished, re-init(3 threads)", 10, 4, 0, 0, 0); add("mt-decoder mid-file, re-init(3 threads)", 10, 5, 0, 0, 0); (void)thorough; (void)nm;
+	add("mt-encoder finished, re-init(3 threads, other block size)", 10, 2, 0, 0, 0); add("mt-encoder mid-Block, re-init(3 threads, other block size)", 10, 3, 0, 0, 0); add("mt-decoder finished, re-init(3 threads)", 10, 4, 0, 0, 0); add("mt-decoder mid-file, re-init(3 threads)", 10, 5, 0, 0, 0); add("mt-encoder filters_update before any data", 10, 6, 0, 0, 0); add("mt-encoder filters_update after FULL_FLUSH", 10, 7, 0, 0, 0); (void)thorough; (void)nm;
 #else
 	for (int k = 0; k < K_NKINDS; k++) { snprintf(nm, sizeof nm, "init:%s", KN[k]); add(nm, 1, k, 0, 0, 0); }
 	for (int k = 0; k < K_NKINDS; k++) { snprintf(nm, sizeof nm, "job:%s", KN[k]); add(nm, 2, k, 0, 0, 0); snprintf(nm, sizeof nm, "job-7byte-input:%s", KN[k]); add(nm, 2, k, 7, 0, 0); }
